@@ -160,6 +160,15 @@ def replay_family(tag, programs, ctors=(0,), clone_points=False, workers=8, opt_
             if k == "I":
                 seen_err = True
     fr.event_coverage = cov
+    # RefLexer is deterministic: one behaviour per (program, input, decision history)
+    keys = set()
+    for rp in replays:
+        k = (rp["p"], tuple(rp["inp"]), tuple(rp["script"]))
+        if k in keys:
+            raise ToolError("RefLexer is not deterministic: two behaviours for program %s input %s decisions %s"
+                            % (rp["p"], rp["inp"], rp["script"]))
+        keys.add(k)
+    fr.deterministic_behaviours = len(keys)
     if ws is None:
         return fr
     failed_ids = {f["program"] for f in failures}
